@@ -519,3 +519,19 @@ Print Assumptions C04_oe_schedule_frozen_once_started.
 Print Assumptions C04_oe_trace_spelled_out.
 Print Assumptions C04_oe_history_mints_inside_window.
 Print Assumptions C04_oe_after_end_nothing_mints.
+
+(* ---- the NFT metadata mode (off-chain token_uri / on-chain extension) of an open
+   edition does not influence the gates: a call is rejected under one metadata
+   configuration iff it is rejected by `ostep`, i.e. under every configuration ---- *)
+From LP Require Import MinterOpenMetaProofs.
+
+Theorem C04_oe_metadata_mode_does_not_touch_gates : forall c vr s e fp wv o,
+  ostep_nft c vr s e fp wv o = Err <-> ostep vr s e fp wv o = Err.
+Proof. exact ostep_nft_err. Qed.
+
+Theorem C04_oe_metadata_mode_same_outcome : forall c vr s e fp wv o s' ms,
+  ostep vr s e fp wv o = Ok (s', ms) -> ostep_nft c vr s e fp wv o = Ok (s', ms, o_mints_of c ms).
+Proof. exact ostep_nft_of_ok. Qed.
+
+Print Assumptions C04_oe_metadata_mode_does_not_touch_gates.
+Print Assumptions C04_oe_metadata_mode_same_outcome.
